@@ -18,16 +18,13 @@ package port
 
 import (
 	"encoding/json"
-	"net"
 	"net/http"
+	"net/url"
 	"strconv"
-	"strings"
 
-	"github.com/google/martian/v3"
+	"github.com/google/martian/v3/filter"
 	"github.com/google/martian/v3/parse"
 )
-
-var noop = martian.Noop("port.Filter")
 
 func init() {
 	parse.Register("port.Filter", filterFromJSON)
@@ -35,108 +32,53 @@ func init() {
 
 // Filter runs modifiers iff the port in the request URL matches port.
 type Filter struct {
-	reqmod martian.RequestModifier
-	resmod martian.ResponseModifier
-	port   int
+	*filter.Filter
 }
 
 type filterJSON struct {
-	Port     int                  `json:"port"`
-	Modifier json.RawMessage      `json:"modifier"`
-	Scope    []parse.ModifierType `json:"scope"`
+	Port         int                  `json:"port"`
+	Modifier     json.RawMessage      `json:"modifier"`
+	ElseModifier json.RawMessage      `json:"else"`
+	Scope        []parse.ModifierType `json:"scope"`
 }
 
 // NewFilter returns a filter that executes modifiers if the port of
 // request matches port.
 func NewFilter(port int) *Filter {
-	return &Filter{
-		port:   port,
-		reqmod: noop,
-		resmod: noop,
-	}
+	m := &matcher{port: port}
+	f := filter.New()
+	f.SetRequestCondition(m)
+	f.SetResponseCondition(m)
+	return &Filter{f}
 }
 
-// SetRequestModifier sets the request modifier.
-func (f *Filter) SetRequestModifier(reqmod martian.RequestModifier) {
-	if reqmod == nil {
-		reqmod = noop
-	}
-
-	f.reqmod = reqmod
+// matcher matches the port of the request URL, which is the default port of
+// the URL's scheme when the URL names none.
+type matcher struct {
+	port int
 }
 
-// SetResponseModifier sets the response modifier.
-func (f *Filter) SetResponseModifier(resmod martian.ResponseModifier) {
-	if resmod == nil {
-		resmod = noop
-	}
-
-	f.resmod = resmod
+func (m *matcher) MatchRequest(req *http.Request) bool {
+	return m.matches(req.URL)
 }
 
-// ModifyRequest runs the modifier if the port matches the provided port.
-func (f *Filter) ModifyRequest(req *http.Request) error {
-	var defaultPort int
-	if req.URL.Scheme == "http" {
-		defaultPort = 80
-	}
-	if req.URL.Scheme == "https" {
-		defaultPort = 443
-	}
+func (m *matcher) MatchResponse(res *http.Response) bool {
+	return m.matches(res.Request.URL)
+}
 
-	hasPort := strings.Contains(req.URL.Host, ":")
-	if hasPort {
-		_, p, err := net.SplitHostPort(req.URL.Host)
-		if err != nil {
-			return err
-		}
-
+func (m *matcher) matches(u *url.URL) bool {
+	if p := u.Port(); p != "" {
 		pt, err := strconv.Atoi(p)
-		if err != nil {
-			return err
-		}
-		if pt == f.port {
-			return f.reqmod.ModifyRequest(req)
-		}
-		return nil
+		return err == nil && pt == m.port
 	}
 
-	// no port explictly declared - default port
-	if f.port == defaultPort {
-		return f.reqmod.ModifyRequest(req)
+	switch u.Scheme {
+	case "http":
+		return m.port == 80
+	case "https":
+		return m.port == 443
 	}
-
-	return nil
-}
-
-// ModifyResponse runs the modifier if the request URL matches urlMatcher.
-func (f *Filter) ModifyResponse(res *http.Response) error {
-	var defaultPort int
-	if res.Request.URL.Scheme == "http" {
-		defaultPort = 80
-	}
-	if res.Request.URL.Scheme == "https" {
-		defaultPort = 443
-	}
-
-	if !strings.Contains(res.Request.URL.Host, ":") && (f.port == defaultPort) {
-		return f.resmod.ModifyResponse(res)
-	}
-
-	_, p, err := net.SplitHostPort(res.Request.URL.Host)
-	if err != nil {
-		return err
-	}
-
-	pt, err := strconv.Atoi(p)
-	if err != nil {
-		return err
-	}
-	if pt == f.port {
-		return f.resmod.ModifyResponse(res)
-	}
-
-	return nil
+	return false
 }
 
 func filterFromJSON(b []byte) (*parse.Result, error) {
@@ -146,22 +88,25 @@ func filterFromJSON(b []byte) (*parse.Result, error) {
 	}
 
 	filter := NewFilter(msg.Port)
+
 	r, err := parse.FromJSON(msg.Modifier)
 	if err != nil {
 		return nil, err
 	}
 
-	reqmod := r.RequestModifier()
-	if err != nil {
-		return nil, err
-	}
-	if reqmod != nil {
-		filter.SetRequestModifier(reqmod)
-	}
+	filter.RequestWhenTrue(r.RequestModifier())
+	filter.ResponseWhenTrue(r.ResponseModifier())
 
-	resmod := r.ResponseModifier()
-	if resmod != nil {
-		filter.SetResponseModifier(resmod)
+	if len(msg.ElseModifier) > 0 {
+		em, err := parse.FromJSON(msg.ElseModifier)
+		if err != nil {
+			return nil, err
+		}
+
+		if em != nil {
+			filter.RequestWhenFalse(em.RequestModifier())
+			filter.ResponseWhenFalse(em.ResponseModifier())
+		}
 	}
 
 	return parse.NewResult(filter, msg.Scope)
